@@ -31,6 +31,10 @@ def spell(step, prev):
         return "rep_cast<%s>(%s)" % (CXX_T[g["rep"]], prev)
     if a in ("AddLit", "SubLit"):
         return "%s %s make_quantity<%s>(%s)" % (prev, "+" if a == "AddLit" else "-", g["unit"], lit(g["rep"], g["v"]))
+    if a == "ModLit":
+        return "%s %% make_quantity<%s>(%s)" % (prev, g["unit"], lit(g["rep"], g["v"]))
+    if a == "DivInt":
+        return "%s / (%d)" % (prev, g["k"])
     if a == "MulInt":
         return "%s * (%d)" % (prev, g["k"])
     if a == "Neg":
